@@ -101,7 +101,7 @@ func init() {
 	})
 	register("C09", "fault_enumeration", func(c *Ctx) {
 		cref = c
-		c.Rule("seed streams = every entropy codec and every transform (with HUFFMAN) x checksum {0,32,64} x 0..5 blocks of 1 KiB (empty stream, last block full or partial) x headerless; for each seed EVERY cut position 0..len-1 is decoded with jobs 1,2,3 (coverage.cuts_tried counts them); larger seeds (64 KiB - 1 MiB) are cut within +-16 bytes of every header field and block boundary and at every stride-th byte (declared non-exhaustive). Oracle: a non-EOF error is returned before any io.EOF and the delivered bytes are a prefix of the original. One evaluation = one (seed, cut) decode (plus one per seed)")
+		c.Rule("seed streams = every entropy codec and every transform (with HUFFMAN) x checksum {0,32,64} x 0..5 blocks of 1 KiB (empty stream, last block full or partial), with and without the size hint in the header, x headerless; for each seed EVERY cut position 0..len-1 is decoded with jobs 1,2,3 (coverage.cuts_tried counts them); larger seeds (64 KiB - 1 MiB) are cut within +-16 bytes of every header field and block boundary and at every stride-th byte (declared non-exhaustive). Oracle: a non-EOF error is returned before any io.EOF and the delivered bytes are a prefix of the original. One evaluation = one (seed, cut) decode (plus one per seed)")
 		const B = 1024
 		fam.Each(c, 0, func(emit func(truncSeed)) {
 			type codec struct{ t, e string }
@@ -126,7 +126,13 @@ func init() {
 							if !c.Thorough() && j == 2 {
 								continue
 							}
-							emit(truncSeed{P: Params{cd.t, cd.e, B, 2, ck, -1, false}, Shape: "text", Len: n, Jobs: j, Stride: 1})
+							// checksum-32 seeds carry the exact size hint in the header (as the CLI always does),
+							// the others no hint
+							h := int64(-1)
+							if ck == 32 {
+								h = int64(n)
+							}
+							emit(truncSeed{P: Params{cd.t, cd.e, B, 2, ck, h, false}, Shape: "text", Len: n, Jobs: j, Stride: 1})
 						}
 					}
 				}
